@@ -14,6 +14,8 @@ use crate::Ctx;
 pub struct P07 {
     pub max_clients: usize,
     pub max_reqs_per_gen: usize,
+    /// malformed input is part of the alphabet (400 replies, server-side error paths)
+    pub hostile_input: bool,
     /// coverage: descriptor number -> last generation seen on it
     fd_owner: HashMap<i32, usize>,
     reuse_after_inflight_close: bool,
@@ -22,7 +24,7 @@ pub struct P07 {
 
 impl P07 {
     pub fn new(max_clients: usize, max_reqs_per_gen: usize) -> Self {
-        P07 { max_clients, max_reqs_per_gen, fd_owner: HashMap::new(), reuse_after_inflight_close: false, closed_with_inflight: Vec::new() }
+        P07 { max_clients, max_reqs_per_gen, hostile_input: false, fd_owner: HashMap::new(), reuse_after_inflight_close: false, closed_with_inflight: Vec::new() }
     }
     fn judge_all(&self, sim: &Sim) -> Option<(String, String)> {
         for g in &sim.gens {
@@ -82,6 +84,9 @@ impl HistoryProp for P07 {
                     } else if g.seq < self.max_reqs_per_gen {
                         v.push(Act::Send(c, Piece::Get));
                         v.push(Act::Send(c, Piece::Head));
+                        if self.hostile_input && g.sends < 4 {
+                            v.push(Act::Send(c, Piece::Bad));
+                        }
                         if g.seq + 2 <= self.max_reqs_per_gen {
                             v.push(Act::Send(c, Piece::Two));
                         }
@@ -191,6 +196,15 @@ fn choose(rng: &mut Rng, sim: &Sim, en: &[Act]) -> Option<Act> {
                     4
                 }
             }
+            Act::Send(c, Piece::Bad) => {
+                // a parse error on a connection that still has unanswered requests
+                let inflight = sim.gen_of(*c).map(|gi| sim.gens[gi].yielded.len() > sim.gens[gi].supplied.len()).unwrap_or(false);
+                if inflight {
+                    6
+                } else {
+                    1
+                }
+            }
             Act::Send(_, _) => 6,
             Act::Close(c) => {
                 let inflight = sim.gen_of(*c).map(|gi| sim.gens[gi].yielded.len() > sim.gens[gi].supplied.len()).unwrap_or(false);
@@ -239,6 +253,13 @@ pub fn run(ctx: &mut Ctx) {
     let mut p = P07::new(4, 3);
     let n = ctx.budget(20_000, 1_200_000) / ctx.nshards;
     hist::random_histories(ctx, &mut p, n, 20, 90, "C07", &mut choose);
+    // the same with malformed input in the alphabet (400 replies interleaved with in-flight requests)
+    let mut p = P07::new(3, 3);
+    p.hostile_input = true;
+    hist::random_histories(ctx, &mut p, n, 20, 90, "C07", &mut choose);
+    let mut p = P07::new(2, 2);
+    p.hostile_input = true;
+    hist::dfs(ctx, &mut p, if quick { 6 } else { 8 }, 3, "C07", 12);
     if ctx.rep.samples.is_empty() {
         ctx.rep.sample(J::s("no sample"));
     }
@@ -246,5 +267,6 @@ pub fn run(ctx: &mut Ctx) {
 
 pub fn replay(ctx: &mut Ctx, case: &J) {
     let mut p = P07::new(4, 3);
+    p.hostile_input = true;
     hist::replay_history(ctx, &mut p, case, "C07");
 }
